@@ -17,6 +17,8 @@ CLAIMED = {
  'C18': ('model_checking', 'allocate/deallocate executed symbolically with posix_memalign/free as contract stubs and symbolic n; block size compared in 128-bit arithmetic; is_aligned and get_alignment_offset for all pointers/sizes/blocks', '5 C18', 'IR symbolic execution with nondeterministic allocator stub + SMT'),
  'C02': ('model_checking', 'symbolic execution of every basic FP kernel; oracle = SMT-LIB FloatingPoint theory (IEEE-754 RNE): arithmetic, sign/bit manipulation, fma family with fused/unfused latitude, min/max, predicates, sign/signnz, frexp, ldexp (single rounding in a wider sort), nextafter, for all bit patterns', '5 C02', 'IR symbolic execution + SMT (QF_FP/QF_BV) per-lane equivalence, native replay'),
  'C08': ('model_checking', 'symbolic execution of ceil/floor/trunc/round/nearbyint/rint/nearbyint_as_int/to_int kernels (hardware round* models and the conversion-based generic path); oracle = fp.roundToIntegral / fp.to_sbv for every float32 and float64', '5 C08', 'IR symbolic execution + SMT (QF_FP) per-lane equivalence'),
+ 'C17': ('model_checking', 'every scalar overload of xsimd_scalar.hpp named by the property executed symbolically and held to the same spec object as the batch kernels (all operand values), plus a spec-free differential: scalar overload vs lane 0 of the batch operation on broadcast operands, in one wrapper, for all operands; integer-exponent pow with abstracted multiplications and an unwinding assertion (|n| <= 64); elementary-function clause not decided', '5 C17', 'IR symbolic execution + SMT (QF_BV/QF_FP) equivalence with the shared specs; scalar-vs-lane differential query'),
+ 'C20': ('other', 'constant tables folded by clang from the real headers (sizes, register widths, alignments, list positions, is_base_of matrix, make_sized_batch, trait widths) read back from the IR; each relation of the property is one solver query with symbolic architecture/type indices (ground facts: degenerate solver use, said so); plus symbolic execution of every aligned load/store body: align attribute of each access divides A::alignment()', '5 C20', 'compile-time tables from the IR + SMT over symbolic (arch,type) indices; IR access-log alignment attributes'),
 }
 NA = {
  'C10': 'no SMT theory contains exp/log/sin/erf/gamma: an ulp bound against the real-valued function cannot be expressed as a solver query over the code (DESIGN.md section 6); exhausting 2^32 inputs would be enumeration, a different technique',
